@@ -39,3 +39,42 @@ package posix
 //@   at-call posix.Posix.PutObjectTagging {C02,C06} [tags-after-body] requires bodyRead
 //@   at-call posix.Posix.PutObjectLegalHold {C02,C06} [hold-after-body] requires bodyRead
 //@   at-call posix.Posix.PutObjectRetention {C02,C06} [retention-after-body] requires bodyRead
+
+// ---- C16: bucket deletion and listing -----------------------------------------------------------
+//@ func (*Posix) versioningEnabled
+//@   pure
+// isBucketEmpty answers nil only after it has read the bucket directory (and, when versioning is
+// configured, the bucket's version directory first) and found at most the temporary-files entry.
+//@ func (*Posix) isBucketEmpty
+//@   let ents = result("os.ReadDir", 0)
+//@   let rerr = result("os.ReadDir", 1)
+//@   let onlyTmp = len(ents) == 0 || (len(ents) == 1 && ents[0].Name() == metaTmpDir)
+//@   at-call os.ReadDir {C16} [versions-inspected-before-the-bucket] when $0 == bucket && $0 != filepath.Join(p.versioningDir, bucket) :: requires p.versioningEnabled() ==> \
+//@        called("os.ReadDir") && arg("os.ReadDir", 0) == filepath.Join(p.versioningDir, bucket) && (rerr == nil ==> onlyTmp) && (rerr != nil ==> errors.Is(rerr, fs.ErrNotExist))
+//@   at-return {C16} [nil-only-if-bucket-directory-empty] when err == nil :: ensures arg("os.ReadDir", 0) == bucket && rerr == nil && onlyTmp
+// DeleteBucket removes the tree only after isBucketEmpty answered nil for that bucket.
+//@ func (*Posix) DeleteBucket
+//@   at-call os.RemoveAll {C16} [remove-only-after-emptiness-check] requires called("posix.Posix.isBucketEmpty") && arg("posix.Posix.isBucketEmpty", 1) == bucket && result("posix.Posix.isBucketEmpty", 0) == nil \
+//@        && ($0 == bucket || $0 == filepath.Join(p.versioningDir, bucket))
+
+// CreateBucket: mkdir is the existence test. Owner, ACL, ownership, versioning and lock attributes
+// are written only for a directory this call created; an existing bucket makes the call fail.
+//@ func (*Posix) CreateBucket
+//@   let created = called("os.Mkdir") && result("os.Mkdir", 0) == nil
+//@   at-call meta.MetadataStorer.StoreAttribute {C16} [attributes-only-on-new-bucket] requires created && $1 == bucket
+//@   at-call? os.Chown {C16} [chown-only-on-new-bucket] requires created && $0 == bucket
+//@   at-call? posix.Posix.PutBucketVersioning {C16} [versioning-only-on-new-bucket] requires created && $2 == bucket
+//@   at-return {C16} [existing-bucket-is-an-error] when called("os.Mkdir") && result("os.Mkdir", 0) != nil :: ensures err != nil
+
+// ListBuckets: a non-admin sees a bucket only when the decoded ACL owner is the caller; the entry
+// names the directory it was made from, after the continuation token and with the prefix; a listing
+// stops before the last bucket directory only with a continuation token naming the last entry returned.
+//@ func (*Posix) ListBuckets
+//@   requires {C16,C20} [page-size-at-least-one] input.MaxBuckets >= 1
+//@   loop 1 invariant {C16,C20} [page-never-overfull] len(buckets) <= input.MaxBuckets
+//@   loop 1 invariant {C16,C20} [index-in-range] -1 <= rangeindex && rangeindex < len(fis)
+//@   at-call builtin.append {C16,C03} [only-owned-or-admin] requires input.IsAdmin || acl.Owner == input.Owner
+//@   at-call builtin.append {C16} [entry-names-the-directory] requires len($1) == 1 && $1[0].Name == fi.Name() \
+//@        && fi.Name() > input.ContinuationToken && strings.HasPrefix(fi.Name(), input.Prefix)
+//@   at-return {C16} [stops-early-only-with-a-token-for-the-last-entry] when err == nil :: \
+//@        ensures rangeindex + 1 >= len(result("posix.listBucketFileInfos", 0)) || (len(buckets) > 0 && ret0.ContinuationToken == buckets[len(buckets) - 1].Name)
